@@ -47,7 +47,7 @@ def sval(ex, st, v, node, what="argument"):
 
 # ---------------------------------------------------------------- library hash objects
 SPEC.lib_classes["LibHasher"] = {"fields": {"alg": "str", "absorbed": "bytes"}}
-SPEC.lib_classes["File"] = {"fields": {"content": "bytes", "pos": "int", "fpath": "str", "mode": "str"}}
+SPEC.lib_classes["File"] = {"fields": {"content": "bytes", "pos": "int", "fpath": "str", "mode": "str", "written": "list[Element]", "raw": "list[str]"}}
 
 
 def _mk_ctor(libname, alg):
@@ -239,7 +239,17 @@ def _sorted(ex, st, args, kwargs, node):
 @lib("VList.sort")
 def _list_sort(ex, st, self, args, kwargs, node):
     if isinstance(self.elem_ty, TStr):
-        ex.mutate(node, st, VList(TStr(), SP.sorted_strs(self.e)))
+        ex.assumed.add("library: list.sort() on strings yields a permutation of the list in ascending code-point order")
+        r = SP.sorted_strs(self.e)
+        a, b = z3.Ints(fresh_name("a") + " " + fresh_name("b"))
+        n = z3.Length(self.e)
+        st.assume(z3.Length(r) == n)
+        st.assume(z3.ForAll([a, b], z3.Implies(z3.And(0 <= a, a < b, b < n), r[a] <= r[b])))
+        st.assume(z3.ForAll([a], z3.Implies(z3.And(0 <= a, a < n), z3.And(0 <= SP.sorted_idx(self.e, a), SP.sorted_idx(self.e, a) < n, r[a] == self.e[SP.sorted_idx(self.e, a)]))))
+        inv = z3.Function(fresh_name("sortinv"), z3.IntSort(), z3.IntSort())
+        st.assume(z3.ForAll([a], z3.Implies(z3.And(0 <= a, a < n), z3.And(0 <= inv(a), inv(a) < n, r[inv(a)] == self.e[a], SP.sorted_idx(self.e, inv(a)) == a))))
+        st.assume(z3.ForAll([a], z3.Implies(z3.And(0 <= a, a < n), inv(SP.sorted_idx(self.e, a)) == a)))
+        ex.mutate(node, st, VList(TStr(), r))
         return VNone()
     raise Unsupported("sort of a non-string list without key")
 
@@ -253,11 +263,28 @@ def _list_append(ex, st, self, args, kwargs, node):
             ety = TRef(ety.cls)
         if isinstance(v, VClass):
             ety = TClass()
-        self = VList(ety, z3.Empty(z3.SeqSort(elem_sort(ety))))
+        self = default_value(TList(ety))
     if isinstance(v, VRef) and isinstance(self.elem_ty, TClass):
         # `hash_entries = [MHLHashEntry]` followed by appends of instances (generator.py): heterogeneous list
         raise Unsupported("list mixing a class object and instances")
     new = ex.list_append(self, v)
+    if isinstance(new.e, list):
+        if not ex.in_spec:
+            comps = flat(coerce(v, self.elem_ty, "list element"))
+            rs = []
+            for k_, (old_s, c) in enumerate(zip(self.e, comps)):
+                r = z3.Const(fresh_name("app"), old_s.sort())
+                n = z3.Length(self.e[0])
+                j = z3.Int(fresh_name("j"))
+                st.assume(r == new.e[k_])
+                st.assume(z3.Length(r) == n + 1)
+                st.assume(r[n] == c)
+                st.assume(z3.ForAll([j], z3.Implies(z3.And(0 <= j, j < n), r[j] == old_s[j])))
+                st.assume(z3.Length(old_s) == n)
+                rs.append(r)
+            new = VList(new.elem_ty, rs)
+        ex.mutate(node, st, new)
+        return VNone()
     if not ex.in_spec:
         # purified description of the appended list (length + element-wise), next to the Concat term: quantified
         # invariants over indices are discharged from these facts, not from the sequence solver
@@ -525,3 +552,99 @@ def _dt_fromts(ex, st, args, kwargs, node):
 @lib("os.path.getmtime")
 def _getmtime(ex, st, args, kwargs, node):
     return VInt(SP.fs_mtime(st.fs, sval(ex, st, args[0], node).e))
+
+
+# ---------------------------------------------------------------- packaging.version (opaque, totally ordered)
+@lib("packaging.version.parse")
+def _version_parse(ex, st, args, kwargs, node):
+    ex.assumed.add("library: packaging.version.parse(s) returns a Version (InvalidVersion for a malformed string); Version comparison is total and does not raise")
+    s_ = sval(ex, st, args[0], node)
+    bad = z3.Function("version_invalid", z3.StringSort(), z3.BoolSort())(s_.e)
+    raise_if(ex, st, bad, "InvalidVersion", node)
+    return VOpaque("version", z3.Function("version_of", z3.StringSort(), z3.IntSort())(s_.e))
+
+
+def _version_attr(name):
+    def h(ex, st, self, args, kwargs, node):
+        return VBool(z3.Function("version_" + name, z3.IntSort(), z3.BoolSort())(self.e))
+
+    return h
+
+
+# ---------------------------------------------------------------- XML infoset model (lxml elements)
+SPEC.lib_classes["Element"] = {"fields": {"tag": "str", "text": "str?", "attrib": "dict[str,str]", "children": "list[Element]"}}
+
+
+@lib("Element.append")
+def _el_append(ex, st, self, args, kwargs, node):
+    cur = st.get_field(self.e, "Element.children", TList(TRef("Element")))
+    st.set_field(self.e, "Element.children", TList(TRef("Element")), ex.list_append(cur, args[0]))
+    return VNone()
+
+
+@lib("ascmhl.utils.convert_local_path_to_posix")
+def _to_posix(ex, st, args, kwargs, node):
+    ex.assumed.add("library: str(Path(p).as_posix()) is a function of the path string (identity on a normalised relative POSIX path)")
+    return VStr(z3.Function("as_posix", z3.StringSort(), z3.StringSort())(sval(ex, st, args[0], node).e))
+
+
+def _write_element(ex, st, args, kwargs, node):
+    """_write_xml_element_to_file(file, element, indent): serialise + indent + write.  Ghost effect: the element is
+    appended to the sequence of elements written to the file (assumed: lxml serialisation followed by the tool's
+    line-feed indentation renders the infoset faithfully for text without control characters)"""
+    ex.assumed.add("library: etree.tostring(element) + indentation + file.write renders the element; the rendering is a function of the infoset")
+    f, el = args[0], args[1]
+    cur = st.get_field(f.e, "File.written", TList(TRef("Element")))
+    st.set_field(f.e, "File.written", TList(TRef("Element")), ex.list_append(cur, el))
+    return VNone()
+
+
+def _write_string(ex, st, args, kwargs, node):
+    f, text = args[0], args[1]
+    cur = st.get_field(f.e, "File.raw", TList(TStr()))
+    st.set_field(f.e, "File.raw", TList(TStr()), ex.list_append(cur, sval(ex, st, text, node)))
+    return VNone()
+
+
+for _m in ("ascmhl.chain_xml_parser", "ascmhl.hashlist_xml_parser"):
+    LIB[_m + "._write_xml_element_to_file"] = _write_element
+    LIB[_m + "._write_xml_string_to_file"] = _write_string
+
+
+@lib("File.write")
+def _file_write(ex, st, self, args, kwargs, node):
+    cur = st.get_field(self.e, "File.raw", TList(TStr()))
+    d = args[0]
+    st.set_field(self.e, "File.raw", TList(TStr()), ex.list_append(cur, VStr(d.e)))
+    return VNone()
+
+
+# ---------------------------------------------------------------- directory listing and pattern matching
+fs_child = z3.Function("fs_child", z3.IntSort(), z3.StringSort(), z3.StringSort(), z3.BoolSort())  # fs, dir, name
+spec_match = z3.Function("spec_match", z3.IntSort(), z3.StringSort(), z3.BoolSort())
+
+
+@lib("os.listdir")
+def _listdir(ex, st, args, kwargs, node):
+    ex.assumed.add("library: os.listdir(d) returns the names of the entries of d, each once, in ARBITRARY order")
+    d = sval(ex, st, args[0], node)
+    names = z3.Const(fresh_name("listdir"), z3.SeqSort(z3.StringSort()))
+    a, b = z3.Ints(fresh_name("a") + " " + fresh_name("b"))
+    x = z3.String(fresh_name("x"))
+    st.assume(z3.ForAll([a, b], z3.Implies(z3.And(0 <= a, a < b, b < z3.Length(names)), names[a] != names[b])))
+    st.assume(z3.ForAll([a], z3.Implies(z3.And(0 <= a, a < z3.Length(names)), fs_child(st.fs, d.e, names[a]))))
+    return VList(TStr(), names)
+
+
+@lib("pathspec.match_file")
+def _match_file(ex, st, self, args, kwargs, node):
+    ex.assumed.add("library: PathSpec.match_file is a function of (pattern list, path string)")
+    return VBool(spec_match(self.e, sval(ex, st, args[0], node).e))
+
+
+LIB["VOpaque.match_file"] = _match_file
+
+
+@lib("os.path.islink")
+def _islink(ex, st, args, kwargs, node):
+    return VBool(z3.Function("fs_islink", z3.IntSort(), z3.StringSort(), z3.BoolSort())(st.fs, sval(ex, st, args[0], node).e))
